@@ -1348,7 +1348,7 @@ def build_unit(name, repo, template_path, overlay_path, twin_false=False, varian
                     chunks.append(('toks', _trim(toks), file))
                 elif kind == 'impl':
                     file, hre = a[2], a[3]
-                    fns, consts, conly = [], [], []
+                    fns, consts, conly, inherent = [], [], [], False
                     for o in a[4:]:
                         if o.startswith('fns='):
                             fns = [x for x in o[4:].split(',') if x]
@@ -1356,8 +1356,31 @@ def build_unit(name, repo, template_path, overlay_path, twin_false=False, varian
                             consts = [x for x in o[7:].split(',') if x]
                         elif o.startswith('contract='):
                             conly = [x for x in o[9:].split(',') if x]
+                        elif o == 'inherent':
+                            inherent = True
                     im = _find_impl(repo, file, hre, cache)
                     hdr = _trim(im.toks[im.lead_end:im.body_open])
+                    if inherent:
+                        # T11: the methods of a trait impl are emitted as inherent methods of the type (`Trait for` is
+                        # dropped from the impl header; the bodies are untouched) - a trait method cannot take a contract
+                        # when the type implements two traits with a method of that name
+                        fi = [k for k, t in enumerate(hdr) if t.kind == 'ident' and t.text == 'for']
+                        if len(fi) != 1:
+                            raise Unsupported('impl %s in %s: not a trait impl (T11)' % (hre, file))
+                        k0 = next_sig(hdr, 1)
+                        if hdr[k0].text == '<':
+                            depth = 0
+                            while k0 < len(hdr):
+                                if hdr[k0].text == '<':
+                                    depth += 1
+                                elif hdr[k0].text == '>':
+                                    depth -= 1
+                                    if depth == 0:
+                                        break
+                                k0 += 1
+                            k0 += 1
+                        u.dropped.append((hre, 'T11', render(hdr[k0:fi[0] + 1]).strip()))
+                        hdr = hdr[:k0] + lit(' ', 'T11') + hdr[fi[0] + 1:]
                     chunks.append(('toks', hdr + lit(' {\n', 'T5'), file))
                     sub = rsscan.split_items(im.body_toks())
                     for c in consts:
